@@ -115,6 +115,10 @@ def run(ctx):
     else:
         raise ToolError("the reload run recorded no events")
 
+    # the accept loop of a real listener, for the subsets of TCP protocols it may enable
+    import endpoint_job
+    endpoint_job.run_listener_subsets(ctx)
+
     ev = sum(x["evaluations"] for x in ctx.harness_runs)
     nt = sum(x["distinct_nontrivial"] for x in ctx.harness_runs)
     tcp = sum(x["counters"].get("tcp_handshakes", 0) for x in ctx.harness_runs)
